@@ -48,6 +48,10 @@ pub struct C08Plan {
     /// advance the simulated clock by this many ms between deliveries (drives time-based persistence)
     pub step_ms: u64,
     pub crash_checks: bool,
+    /// initialise the manager before the transactions are stored: it then hears of a version for the
+    /// first time through its confirmation report, so reports can leave holes above the watermark
+    #[serde(default)]
+    pub manager_first: bool,
 }
 
 pub fn plan(tier: Tier, seed: u64) -> Value {
@@ -65,9 +69,18 @@ pub fn plan(tier: Tier, seed: u64) -> Value {
         txns.push(TxnSpec { events, target });
     }
     let mut ops = Vec::new();
+    // in half of the runs the reports of a transaction's versions travel separately (the manager's
+    // API is per version), which leaves holes above the watermark for a while
+    let split = rng.chance(1, 2);
     for (i, t) in txns.iter().enumerate() {
         // the final count at least once, plus stale lower counts and duplicates
-        ops.push(Delivery { txn: i, count: t.target, only_version: None });
+        if split && t.events > 1 {
+            for v in 0..t.events {
+                ops.push(Delivery { txn: i, count: t.target, only_version: Some(v) });
+            }
+        } else {
+            ops.push(Delivery { txn: i, count: t.target, only_version: None });
+        }
         let extra = rng.below(3);
         for _ in 0..extra {
             let c = if t.target > 0 && rng.chance(2, 3) { rng.below(t.target as u64 + 1) as u8 } else { t.target };
@@ -76,7 +89,7 @@ pub fn plan(tier: Tier, seed: u64) -> Value {
         }
     }
     rng.shuffle(&mut ops);
-    serde_json::to_value(C08Plan { rf, buckets, partition, txns, ops, seed: rng.next_u64() >> 8, step_ms: *rng.pick(&[0u64, 10, 2000, 6000]), crash_checks: true }).unwrap()
+    serde_json::to_value(C08Plan { rf, buckets, partition, txns, ops, seed: rng.next_u64() >> 8, step_ms: *rng.pick(&[0u64, 10, 2000, 6000]), crash_checks: true, manager_first: rng.chance(1, 2) }).unwrap()
 }
 
 struct Snapshot {
@@ -122,6 +135,15 @@ async fn run(plan: C08Plan) -> RunOutcome {
         .sync_interval(Duration::ZERO)
         .open(&dir)
         .expect("open database");
+    let assigned: HashSet<u16> = HashSet::from([plan.partition]);
+    let mut early_manager = None;
+    if plan.manager_first {
+        let mut m = BucketConfirmationManager::new(dir.clone(), plan.buckets, plan.rf, assigned.clone());
+        if let Err(e) = m.initialize(&db).await {
+            violation(&mut sigs, "initialize-fails", "BucketConfirmationManager::initialize", "fresh", e.to_string());
+        }
+        early_manager = Some(m);
+    }
     // --- store the transactions with count 0, as a replica does --------------------------------
     let pk = make_id(plan.partition.wrapping_mul(3), 0x1234_5678_9abc_def0_1122_3344_5566_7788u128 ^ plan.seed as u128);
     let hash = uuid_to_partition_hash(pk);
@@ -160,11 +182,16 @@ async fn run(plan: C08Plan) -> RunOutcome {
     }
     let total_versions: u64 = stored.iter().map(|s| s.versions.len() as u64).sum();
     // --- manager ---------------------------------------------------------------------------------
-    let assigned: HashSet<u16> = HashSet::from([plan.partition]);
-    let mut manager = BucketConfirmationManager::new(dir.clone(), plan.buckets, plan.rf, assigned.clone());
-    if let Err(e) = manager.initialize(&db).await {
-        violation(&mut sigs, "initialize-fails", "BucketConfirmationManager::initialize", "fresh", e.to_string());
-    }
+    let mut manager = match early_manager {
+        Some(m) => m,
+        None => {
+            let mut m = BucketConfirmationManager::new(dir.clone(), plan.buckets, plan.rf, assigned.clone());
+            if let Err(e) = m.initialize(&db).await {
+                violation(&mut sigs, "initialize-fails", "BucketConfirmationManager::initialize", "fresh", e.to_string());
+            }
+            m
+        }
+    };
     let bucket = plan.partition % plan.buckets;
     let conf_dir = dir.join("buckets").join(format!("{bucket:05}")).join("confirmation");
     // snapshots taken by the persist hook
@@ -209,7 +236,7 @@ async fn run(plan: C08Plan) -> RunOutcome {
             sim.advance(plan.step_ms * 1_000_000);
         }
         // the on-disk count is written before the update is reported (ConfirmTransaction's order)
-        if d.only_version.is_none() {
+        {
             if let Err(e) = db.set_confirmations(plan.partition, s.offsets.clone(), s.id, d.count).await {
                 violation(&mut sigs, "harness", "set_confirmations", "error", e.to_string());
             }
